@@ -946,7 +946,9 @@ def binary(conf_mat):
     if H > 0 and H < 1 and F > 0 and F < 1:
         LOR = math.log(theta)
 
-    MCC = (TP*TN-FP*FN)/math.sqrt((TP+FP)*(TP+FN)*(TN+FP)*(TN+FN))
+    # the product of the four marginals overflows int64 beyond ~1e5 cases
+    MCC = (TP*TN-FP*FN)/math.sqrt(float(TP+FP)*float(TP+FN)
+                                  * float(TN+FP)*float(TN+FN))
 
     EDS = np.nan
     if TP > 0:
